@@ -47,7 +47,8 @@ DISPS = ["0x0", "0x8", "0x18", "0x80", "-0x8", "-0x18", "0x10", "0x100", "-0x80"
 SCALES = ["1", "2", "4", "8"]
 SYMS = ["main", "f", "_init", "foo.part.0", "printf@plt", "deadbeef", "add", "__libc_start_main",
         # demangled names (objdump -C): blanks, commas, parentheses and angle brackets inside the annotation
-        "foo(int, char)", "std::vector<int, std::allocator<int> >::push_back(int const&)", "operator new(unsigned long)", "ns::f<a, b>(x*)"]
+        "foo(int, char)", "std::vector<int, std::allocator<int> >::push_back(int const&)", "operator new(unsigned long)", "ns::f<a, b>(x*)",
+        "log(char const*, ...)", "void emit<int, char...>(int, char...)", "..."]
 
 
 class SInst:
